@@ -43,7 +43,7 @@ SRC = "esutil/htm/htmc.cc"
 
 # rules that keep their verdict however the code is laid out (decided by term equality, effect analysis or dominance over
 # resolved calls); every other rule of this check is a template rule (vcheck.core.Check.obt)
-SEMANTIC = ('R13.1::lookup_id::ra-read-through', 'R13.1::lookup_id::dec-read-through', 'R13.1::HTM.lookup_id::output-int64-same-size', 'R13.1::HTM.lookup_id::size-check', 'R13.2::HTM.intersect::flag-mapping', 'R13.3::cbincount::lower-edge-guard-on-untruncated-value', 'R13.3::cbincount::upper-bin-guard', 'R13.3::cbincount::per-point-value', 'R13.4', 'R13.5', 'R13.6', 'R13.7')
+SEMANTIC = ('R13.1::lookup_id::ra-read-through', 'R13.1::lookup_id::dec-read-through', 'R13.1::HTM.lookup_id::output-int64-same-size', 'R13.1::HTM.lookup_id::size-check', 'R13.2::HTM.intersect::flag-mapping', 'R13.3::cbincount::lower-edge-guard-on-untruncated-value', 'R13.3::cbincount::upper-bin-guard', 'R13.3::cbincount::per-point-value', 'R13.3::cbincount::cover-computed-for-every-point', 'R13.3::cbincount::candidate-loops-run-to-their-end', 'R13.4', 'R13.5', 'R13.6', 'R13.7')
 
 
 def run(chk):
@@ -70,6 +70,8 @@ def run(chk):
     # ... and so does every other method that handles a stored node (triangleTest): HTM ids, not node positions, reach the lists; all four
     # stored children are searched
     _c12.node_walk_rules(chk, rule="R13.6")
+    # ... and the edge/circle quadratic answers 'no crossing' only for a negative discriminant (shared with C12)
+    _c12.edge_crossing_rule(chk, rule="R13.6")
     descent_tolerance(chk)
 
 
@@ -425,6 +427,12 @@ def bincount_c(chk, decl, fs=None):
     cfg, view = f.cfg, f.view
     # per-point scale (and its logarithm): the search radius, the distance cut and the bin of point i1 all use the scale of point i1
     per_point_values_rule(chk, "R13.3", "cbincount", f, _outer_loop(f, p_ra1), {("param", p) for p in (p_ra1, p_dec1, p_scale)})
+    # the triangle lists searched for point i1 are those of its own circle (no reuse of an earlier cover unless centre and opening angle
+    # are compared), and every candidate triangle is examined (shared with C12)
+    from checks import C12 as _c12
+    _c12.cover_fresh_rule(chk, "R13.3", "cbincount", f, _outer_loop(f, p_ra1),
+                          {"scale (search radius)": ("param", p_scale), "longitude": ("param", p_ra1), "latitude": ("param", p_dec1)})
+    _c12.candidate_loops_rule(chk, "R13.3", "cbincount", f, _outer_loop(f, p_ra1), fs or {})
     # the counting site
     incs = []
     for n in cfg.nodes:
@@ -805,6 +813,7 @@ def bincount_py(chk, repo, cdecl):
     chk.ob("R13.4", "HTM.bincount::ids-of-second-set", None if (unrec and not bad) else not bad, fi.where(),
            "missing ids are those of the second set (lookup_id(ra2, dec2)), a missing minid/maxid is their extreme, supplied ones are used with supplied ids, and the "
            "reverse indices are built from ids - minid with that same minid%s" % ((" -- " + "; ".join(bad[:3])) if bad else (" -- not evaluated: " + "; ".join(unrec[:2]) if unrec else "")))
+    _aligned_lists_rule(chk, repo, fi, len(cps))
     lb = [c for c in walk_no_nested(fi.node) if isinstance(c, ast.Call) and call_name(c) == "log_bins"]
     ok = len(lb) == 1 and [norm(a) for a in lb[0].args] == ["rmin", "rmax", "nbin"]
     chk.ob("R13.4", "HTM.bincount::edges-from-same-arguments", ok, fi.where(), "reported bin edges are log_bins(rmin, rmax, nbin) of the same arguments")
@@ -817,6 +826,76 @@ def bincount_py(chk, repo, cdecl):
     bsz = (sp.log(b, 10) - sp.log(a, 10)) / n
     ok = isinstance(r, tuple) and len(r) == 2 and symx.equal(r[0], 10 ** (sp.log(a, 10) + bsz * k))[0] and symx.equal(r[1], 10 ** (sp.log(a, 10) + bsz * k + bsz))[0]
     chk.ob("R13.4", "log_bins::edges", bool(ok), lbf.where(), "lower edge k = 10^(log10 rmin + k*binsize), upper = lower*10^binsize with binsize = (log10 rmax - log10 rmin)/nbin (the C++ bin formula)")
+
+
+def _selection_chain(t):
+    """(base, [(operation, other operands)]) of a term: the chain of element selections / reorderings `OP(x, ...)` applied to a base"""
+    chain = []
+    while isinstance(t, sp.Basic) and not isinstance(t, sp.Symbol) and isinstance(t, sp.core.function.AppliedUndef) and t.args \
+            and t.func.__name__ in ("AT", "SLICE", "TAKE", "SORT", "COMPRESS", "UNIQUE", "ROLL", "FLIP"):
+        chain.append((t.func.__name__, tuple(t.args[1:])))
+        t = t.args[0]
+    return t, chain[::-1]
+
+
+def _aligned_lists_rule(chk, repo, fi, nparams):
+    """R13.4: the pair counter pairs point i of list 1 with ITS scale and its own coordinates: the C++ side reads ra1[i], dec1[i] and
+    scale[i] with one index.  So whatever selection or reordering of elements the python method applies to one of the per-point arrays
+    of a list before the extension call (sorting for locality, masking, reversing), it applies the same one to the others: the terms
+    handed over are P(ra1), P(dec1), P(scale) for one chain of element selections P (the identity today); likewise ra2, dec2 and the
+    ids the reverse indices are built from.  Decided on the symbolic terms of the arguments of the extension call (all inputs)."""
+    from vcheck import symx
+    S = sp.Symbol
+    INT = sp.Function("INT")
+    key = "HTM.bincount::per-point-arrays-of-a-list-in-one-order"
+    bad, unrec, seen = [], [], 0
+    for hid in (None, S("htmid2")):
+        se = symx.SymEval(repo, opaque=("esutil.stat.util.histogram", H + "HTM.lookup_id", H + "log_bins"), opaque_tests=False, self_calls_as_terms=True)
+        tag = "scale array, htmid2 %s" % ("given" if hid is not None else "None")
+        try:
+            r = se.run(fi, {k: S(k) for k in ("self", "rmin", "rmax", "nbin", "ra1", "dec1", "ra2", "dec2")},
+                       {"scale": S("scale"), "htmid2": hid, "htmrev2": None, "minid": None, "maxid": None, "getbins": False, "verbose": False})
+        except Exception as e:
+            unrec.append("%s: %s" % (tag, str(e)[:100]))
+            continue
+        if not (isinstance(r, sp.Basic) and getattr(r.func, "__name__", "") == "SELF_cbincount" and len(r.args) == nparams == 11):
+            unrec.append("%s: result %s" % (tag, str(r)[:100]))
+            continue
+        seen += 1
+        strip_int = lambda t: t.replace(lambda x: x.func == INT, lambda x: x.args[0])
+        groups = [[("ra1", r.args[3]), ("dec1", r.args[4]), ("scale", r.args[9])], [("ra2", r.args[5]), ("dec2", r.args[6])]]
+        ids = [a for a in strip_int(r.args[7]).atoms(sp.core.function.AppliedUndef) if a.func.__name__ == "lookup_id"]
+        if hid is not None:
+            rv = strip_int(r.args[7])
+            rv = rv.args[0] if rv.args else rv
+            rv = rv.replace(lambda x: getattr(x.func, "__name__", "") in ("MIN", "MAX"), lambda x: sp.Symbol("_extreme_"))      # a reduction is no element order
+            hs_ = [a for a in sp.preorder_traversal(rv) if isinstance(a, sp.Basic) and _selection_chain(a)[0] == hid]
+            if hs_:
+                groups[1].append(("htmid2", max(hs_, key=lambda a: len(_selection_chain(a)[1]))))
+        elif len(ids) == 1 and len(ids[0].args) == 2:
+            for nm, got, want in (("ra2", ids[0].args[0], r.args[5]), ("dec2", ids[0].args[1], r.args[6])):
+                if got != want and _selection_chain(got)[0] == _selection_chain(want)[0] == S(nm):
+                    bad.append("%s: the ids of list 2 are looked up for `%s` but the extension is handed `%s`" % (tag, got, want))
+        for grp in groups:
+            chains = {}
+            for nm, t in grp:
+                base, ch = _selection_chain(t)
+                if base != S(nm):
+                    unrec.append("%s: the term handed over for %s, `%s`, is not a chain of element selections of the argument" % (tag, nm, str(t)[:80]))
+                    chains = None
+                    break
+                chains[nm] = ch
+            if chains and len({tuple(c) for c in chains.values()}) > 1:
+                ref = grp[0][0]
+                odd = [nm for nm in chains if chains[nm] != chains[ref]]
+                show = lambda c: " then ".join("%s(., %s)" % (o, ", ".join(str(a)[:60] for a in rest)) for o, rest in c) or "the caller's order"
+                bad.append("%s: %s reaches the extension as %s but %s as %s" % (tag, ref, show(chains[ref]), ", ".join(odd), show(chains[odd[0]])))
+    ok = False if bad else (None if (unrec or not seen) else True)
+    chk.ob("R13.4", key, ok, fi.where(),
+           "the extension reads ra1[i], dec1[i], scale[i] (and ra2[k], dec2[k] with the reverse indices of the ids) by one index: the per-point arrays of a list reach it "
+           "through the same chain of element selections / reorderings%s%s"
+           % ("" if not bad else " -- %s: element i of these arrays no longer belongs to one point - every point of the list is searched and binned with the value of another point"
+              % "; ".join(bad[:2]), "" if not unrec else " -- not evaluated: %s" % "; ".join(unrec[:2])))
 
 
 def _width_overrides(fi, par, depth=0, seen=None):
